@@ -535,6 +535,7 @@ func parseRib(data []byte, family bgp.Family, isAddPath bool) (*Rib, error) {
 		safi = data[2]
 		data = data[3:]
 		family = bgp.NewFamily(afi, safi)
+		u.Family = family
 	}
 	prefix, err := bgp.NLRIFromSlice(family, data)
 	if err != nil {
